@@ -41,10 +41,22 @@ def _strip_doc(node):
     return node
 
 
+def file_anchors(prop):
+    """[(file, "*")] for the files the property is anchored in (properties.jsonl): the whole module, docstrings stripped"""
+    for line in (ROOT / "properties.jsonl").read_text().splitlines():
+        d = json.loads(line)
+        if d["id"] == prop:
+            return [(f, "*") for f in d["anchors"]["files"] if f.endswith(".py")]
+    return []
+
+
 def anchor_hash(path, dotted):
-    src = (REPO / path).read_text()
-    tree = ast.parse(src)
-    nodes = _find(tree, dotted)
+    try:
+        src = (REPO / path).read_text()
+        tree = ast.parse(src)
+    except (OSError, SyntaxError):
+        return None
+    nodes = [tree] if dotted == "*" else _find(tree, dotted)
     if not nodes:
         return None
     dump = "|".join(ast.dump(_strip_doc(n), annotate_fields=False, include_attributes=False) for n in nodes)
